@@ -218,6 +218,33 @@ fn main() {
                                 "detail": {"case": case, "text": prog.text, "token": {"idx": t.idx, "text": t.t, "offset": t.end}, "expected": exp, "got": got}}));
                         }
                     }
+                    // ---- C18: the identifier being typed may, so far, spell a keyword (`todo` on the way to `todo_list`):
+                    // the offered names and the replaced range must be the same as for any other prefix
+                    if t.r == "ref" && t.idx % 4 == ci % 4 && !t.vis.is_empty() && case["imp"] != "unqalias" {
+                        let kw = ["todo", "panic"][t.idx % 2];
+                        let mut text2 = String::with_capacity(prog.text.len() + 8);
+                        text2.push_str(&prog.text[..t.start]);
+                        text2.push_str(kw);
+                        text2.push_str(&prog.text[t.end..]);
+                        let ws2 = workspace::single_package(&[("m1", &text2), (LIB_NAME, LIB_TEXT)]);
+                        let a2 = ws2.host.snapshot();
+                        let end2 = t.start + kw.len();
+                        let items = a2.completions(FilePos::new(M1, (end2 as u32).into()), None).unwrap().unwrap_or_default();
+                        queries += 1;
+                        let mut got: Vec<String> = items.iter().filter(|i| matches!(i.kind, ide::CompletionItemKind::Function | ide::CompletionItemKind::Param | ide::CompletionItemKind::Variant)).map(|i| i.label.to_string()).collect();
+                        got.retain(|l| !["Ok", "Error", "True", "False", "Nil"].contains(&l.as_str()));
+                        got.sort();
+                        got.dedup();
+                        let mut exp: Vec<String> = t.vis.clone();
+                        exp.sort();
+                        let bad_range = items.iter().any(|i| usize::from(i.source_range.start()) != t.start || usize::from(i.source_range.end()) != end2);
+                        if got != exp || bad_range {
+                            local.push(json!({"kind": "mismatch", "prop": "C18",
+                                "features": {"what": if got != exp { "visible set (keyword-spelled prefix)" } else { "replace range (keyword-spelled prefix)" }, "inner": t.ctx.last().cloned().unwrap_or_default(),
+                                             "missing": exp.iter().filter(|e| !got.contains(e)).collect::<Vec<_>>(), "extra": got.iter().filter(|g| !exp.contains(g)).collect::<Vec<_>>()},
+                                "detail": {"case": case, "text": text2, "token": {"idx": t.idx, "text": kw, "offset": end2}, "expected": exp, "got": got}}));
+                        }
+                    }
                     // ---- C18: after `module.` exactly the public functions and constructors of that module
                     if t.r == "modref" {
                         if let Some(dot) = prog.toks.iter().find(|d| d.idx == t.idx + 1 && d.t == ".") {
@@ -273,6 +300,24 @@ fn main() {
                             if e.map(|x| x.to_string()) != got {
                                 local.push(json!({"kind": "mismatch", "prop": "C19", "features": {"what": "highlight tag", "role": t.r, "expected": e, "got": got, "inner": t.ctx.last().cloned().unwrap_or_default()},
                                     "detail": {"case": case, "text": prog.text, "token": {"idx": t.idx, "text": t.t, "offset": t.start}}}));
+                            }
+                        }
+                    }
+                    // a range request answers with the highlights that overlap the range - in particular nothing that
+                    // ends at or before its start
+                    for (bi, t) in prog.toks.iter().enumerate() {
+                        if bi % 3 != ci % 3 { continue; }
+                        for &(rs, re) in &[(t.end, prog.text.len()), (t.start, t.end), (t.end, t.end)] {
+                            let r = syntax::TextRange::new((rs as u32).into(), (re as u32).into());
+                            let sub = a.syntax_highlight(M1, Some(r)).unwrap();
+                            queries += 1;
+                            let exp: Vec<&ide::HlRange> = hl.iter().filter(|h| usize::from(h.range.start()) < re && usize::from(h.range.end()) > rs).collect();
+                            let ok = sub.len() == exp.len() && sub.iter().zip(exp.iter()).all(|(x, y)| x == *y);
+                            if !ok {
+                                local.push(json!({"kind": "mismatch", "prop": "C19", "features": {"what": "range highlight differs from the overlapping part of the full list", "empty_range": rs == re},
+                                    "detail": {"case": case, "text": prog.text, "range": [rs, re], "got": sub.iter().map(|h| format!("{:?}", h.range)).collect::<Vec<_>>(),
+                                               "expected": exp.iter().map(|h| format!("{:?}", h.range)).collect::<Vec<_>>()}}));
+                                break;
                             }
                         }
                     }
